@@ -36,6 +36,11 @@ type Ctx struct {
 	Sample     []string
 	Opts       simrt.Options
 	RunIndex   int
+	// WallGuard > 0: the scenario fed the system an input whose handling must
+	// take a bounded amount of real time; a run that takes longer in real
+	// (wall-clock) time is reported as the violation "input-blowup".
+	WallGuard time.Duration
+	WallNote  string
 }
 
 // Choose draws from the decision stream.
@@ -132,12 +137,16 @@ func runOne(t *testing.T, prop, tier string, sc Scenario, st *simrt.Stream, log 
 		opts = sc.Options(tier)
 	}
 	opts.Log = log
+	wall0 := time.Now()
 	sim := simrt.Run(t, st, opts, func() {
 		sc.Body(c)
 	})
 	res := &RunResult{Sim: sim, Ctx: c, Rec: st.Rec}
 	res.Decisions = st.Values()
 	res.Viol = append(res.Viol, c.Viol...)
+	if wall := time.Since(wall0); c.WallGuard > 0 && wall > c.WallGuard {
+		res.Viol = append(res.Viol, Violation{prop, "input-blowup", fmt.Sprintf("the run took %.1f s of real time (guard %v) after this input was sent: %s", wall.Seconds(), c.WallGuard, c.WallNote)})
+	}
 	for _, p := range sim.Panics {
 		first := p
 		if i := strings.Index(first, "\n"); i >= 0 {
